@@ -23,9 +23,9 @@ CTX = {'k': 1}
 RETURNS = {'R1': False, 'R2': 0, 'F0': '', 'M': False, 'S_onB': False, 'S_emitB': True}
 
 BOUNDS = {
-    'quick': 'all operation sequences of length <= 3 over 39 operations (tree, no state merging) + final probe; '
+    'quick': 'all operation sequences of length <= 3 over 41 operations (tree, no state merging) + final probe; '
              'graph search over model states to closure (18 operations, listener lists <= 2 per name)',
-    'thorough': 'all operation sequences of length <= 4 over 39 operations (2.3 M histories); graph search to '
+    'thorough': 'all operation sequences of length <= 4 over 41 operations (2.3 M histories); graph search to '
                 'closure with listener lists <= 3 per name',
 }
 ASSUMPTIONS = ['callbacks carrying an attribute named `_` are outside the alphabet (the emitter marks its once-wrappers with it, as tiny-emitter does, so off(name, cb) also removes a callable whose `_` equals cb)',
@@ -62,6 +62,8 @@ def alphabet():
     ops.append(['on', 'a', 'K', None])      # a callable OBJECT with attributes of its own (called = True, like a used Mock)
     ops.append(['once', 'a', 'K', None])
     ops.append(['off', 'a', 'K'])
+    ops.append(['on', 'a', 'W', None])      # a functools.wraps product around R1 (W.__wrapped__ is R1): a listener of its own
+    ops.append(['off', 'a', 'W'])
     return ops
 
 
@@ -169,6 +171,9 @@ class World(object):
             self.cbs[name] = self._recorder(name, script)
         self.cbs['F0'] = Falsy(self._recorder('F0', None))
         self.cbs['K'] = Spy(self._recorder('K', None))
+        import functools
+        wrec = self._recorder('W', None)
+        self.cbs['W'] = functools.wraps(self.cbs['R1'])(lambda *a, **k: wrec(*a, **k))
         self.holder = Holder(self._recorder('M', None))
         self.names_of = dict((id(v), k) for k, v in self.cbs.items())
 
